@@ -331,6 +331,18 @@ func (vm *VM) setFromReflectValue(r int8, v reflect.Value) registerType {
 	}
 }
 
+// setRangeValue sets the register r, of an iteration variable of a range
+// statement, to the value v. Arrays and structs are copied because the
+// iteration variable is a distinct variable, it does not refer to v.
+func (vm *VM) setRangeValue(r int8, v reflect.Value) {
+	if k := v.Kind(); k == reflect.Array || k == reflect.Struct {
+		rv := reflect.New(v.Type()).Elem()
+		rv.Set(v)
+		v = rv
+	}
+	vm.setFromReflectValue(r, v)
+}
+
 func appendCap(oc, nl int) int {
 	if oc == 0 || nl > oc*2 {
 		return nl
